@@ -4,6 +4,7 @@ mod c03;
 mod c11;
 mod c13;
 mod c14;
+mod c15;
 mod c16;
 mod c18;
 mod report;
@@ -29,6 +30,7 @@ fn props() -> Vec<Box<dyn Property>> {
         Box::new(c11::ReportProp { id: "C12" }),
         Box::new(c13::C13),
         Box::new(c14::C14),
+        Box::new(c15::C15),
         Box::new(c16::C16),
         Box::new(c18::C18),
     ]
@@ -89,6 +91,18 @@ fn real_main(args: &[String]) -> i32 {
                     say!("HARNESS: unknown property {}", id);
                     2
                 }
+            }
+        }
+        "solo" | "c15-chain" | "c15-exec" => {
+            let ctx = match ctx_from_env(Tier::Quick) {
+                Ok(c) => c,
+                Err(_) => return 2,
+            };
+            match (cmd, args.get(2), args.get(3)) {
+                ("solo", Some(f), Some(l)) => c15::solo_main(&ctx, f, l),
+                ("c15-chain", Some(d), Some(i)) => c15::chain_main(&ctx, d, i.parse().unwrap_or(0)),
+                ("c15-exec", Some(f), _) => c15::exec_main(&ctx, f),
+                _ => 2,
             }
         }
         "replay" => {
